@@ -970,6 +970,11 @@ func (sc *scen) fixedRemainders() bool {
 	if !sc.kadd(id, capEntry{b1, total}, capEntry{b2, S}) {
 		return false
 	}
+	if g.chance(0.5) && floorDivPrice(bi(1), p).Sign() == 0 {
+		// a dust bid first: it pays one unit and buys nothing (price > 1); it must neither count
+		// against the cap nor hide the bids that follow it from the cap check
+		sc.place(b1, id, "F", p, sc.pd, bi(1))
+	}
 	for i, a := range amts {
 		sc.place(b1, id, "F", p, sc.pd, a)
 		if i == 0 {
@@ -1008,7 +1013,7 @@ func (sc *scen) windowJump() bool {
 		sc.block(start - 1)
 	}
 	sc.noise()
-	sc.block(end + int64(g.between(0, 50))) // first block at or after the start is already past the end
+	sc.block(end + int64(g.between(0, 50)))          // first block at or after the start is already past the end
 	sc.do(fmt.Sprintf("cancel %d %d", sc.owner, id)) // opened: refused
 	sc.block(g.now + 1)
 	sc.do(fmt.Sprintf("cancel %d %d", sc.owner, id))
